@@ -40,7 +40,7 @@ Variable st : story.
 
 (* ---- the single evaluation points ---- *)
 Definition expr_part (code : string) : string :=
-  match (if has_cmp_op code then None else find_char code ":"%char) with
+  match spec_colon code with
   | Some i => strip (take i code)
   | None => code
   end.
@@ -50,7 +50,7 @@ Lemma display_fault_is_marker_lemma ctx code e :
   o_eval orc ctx (expr_part code) = Exc e -> render_expr orc ctx code = ERR.
 Proof.
   unfold expr_part, render_expr.
-  destruct (if has_cmp_op code then None else find_char code ":"%char) as [i|]; intros ->; reflexivity.
+  destruct (spec_colon code) as [i|]; intros ->; reflexivity.
 Qed.
 
 Lemma display_never_raises code s :
